@@ -37,6 +37,13 @@ def latex_tt(tier):
                        units=[dict(src='repo:latex.c', remove=trees), 'repo:token.c', 'repo:stack.c', 'repo:object_pool.c', 'repo:char.c'],
                        nobody_ok='*', ignore_failed=['no-body'], unwind=90, timeout=300, mem_gb=4, functional=True, replay=False,
                        desc='mmd_export_token_latex_tt, token %s with its literal text: reserved characters only escaped, decoded output == source text' % kind))
+    # the verbatim environments (fenced / indented code): mmd_export_token_latex_raw must copy the text unchanged
+    for i, (lit, kind) in enumerate(lit_rules()):
+        hs.append(dict(name='c04_latex_raw_%02d_%s' % (i, kind.lower()), src='c04/latextt.c', defs=dict(EXPORT='mmd_export_token_latex_raw', IDX=i, RAW_IDENTITY=1, TREE1=trees[0], TREE2=trees[1], TREE3=trees[2]),
+                       prepare=C08.gen_lit_table, pool_off=True,
+                       units=[dict(src='repo:latex.c', remove=trees), 'repo:token.c', 'repo:stack.c', 'repo:object_pool.c', 'repo:char.c'],
+                       nobody_ok='*', ignore_failed=['no-body'], unwind=90, timeout=300, mem_gb=4, functional=True, replay=False,
+                       desc='mmd_export_token_latex_raw (verbatim / lstlisting environments), token %s with its literal text: the output is exactly the source text' % kind))
     # tokens defined by a pattern: one concrete text each
     for nm, txt, kind in (('hash1', '# ', 'HASH1'), ('hash2', '## ', 'HASH2'), ('hash3', '### ', 'HASH3'), ('hash6', '###### ', 'HASH6'), ('hash2_eol', '##', 'HASH2')):
         hs.append(dict(name='c04_latex_tt_x_' + nm, src='c04/latextt.c', defs=dict(EXPORT='mmd_export_token_latex_tt', IDX=0, XLIT='"%s"' % txt, XKIND=kind, TREE1=trees[0], TREE2=trees[1], TREE3=trees[2]),
